@@ -474,32 +474,15 @@ let exec (op : string) : unit =
         String.iteri (fun i ch -> if ch <> '.' then let (p, c) = parse_pchar ch in
                         match put tbl !b0 (n_of_int i) p c with Ok y -> b0 := y | _ -> ())
           "RNBQKBNRPPPPPPPP................................pppppppprnbqkbnr";
-        let g = ref { gboard = !b0; ghist = []; gdepth = N0 } in
+        let g0 = { gboard = !b0; ghist = []; gdepth = N0 } in
         let show (gm : game) = Printf.sprintf "%s:%c" (cells_string (fun i -> bget gm.gboard (n_of_int i))) (if gm.gboard.turn = White then 'w' else 'b') in
-        let over (gm : game) : string option =
-          match game_ending tbl rk bs gm.gboard gm.gboard.turn with
-          | Ok (Some Checkmate, _) -> Some "checkmate"
-          | Ok (Some Stalemate, _) -> Some "stalemate"
-          | Ok (Some Draw, _) -> Some "draw"
-          | Ok (None, _) -> None
-          | _ -> Some "PANIC" in
-        let boards = ref [ show !g ] in
-        let ending = ref (over !g) in
-        List.iter (fun inp ->
-            if !ending = None then begin
-              let cs = chars_of_string inp in
-              let r =
-                if full_match cOORDINATE_RE cs && String.length inp = 4 then
-                  apply_by_coords tbl rk bs !g (n_of_int (parse_sq (String.sub inp 0 2))) (n_of_int (parse_sq (String.sub inp 2 2)))
-                else if full_match aLGEBRAIC_RE cs then apply_by_notation tbl rk bs !g cs
-                else GInvalidMove in
-              (match r with
-               | GOk (_, g') -> g := { g' with gboard = toggle_turn g'.gboard }
-               | _ -> ());
-              boards := show !g :: !boards;
-              ending := over !g
-            end) inputs;
-        Printf.sprintf "pvp %s %s" (match !ending with Some e -> e | None -> "runaway") (String.concat " " (List.rev !boards))
+        (* the loop itself is the extracted model (Pvp.pvp_run: trim, classification by the translated
+           patterns, command execution, turn toggle, verdict before every prompt) *)
+        let (gs, r) = pvp_run tbl rk bs g0 (List.map chars_of_string inputs) in
+        let ending = match r with
+          | Ok (Some Checkmate) -> "checkmate" | Ok (Some Stalemate) -> "stalemate" | Ok (Some Draw) -> "draw"
+          | Ok None -> "runaway" | _ -> "crashed" in
+        Printf.sprintf "pvp %s %s" ending (String.concat " " (List.map show gs))
     | [ "watch"; limit; d ] ->
         (* the real watch loop chose the moves (random book continuation, search): the model validates
            them - every printed label must be the notation of a legal move in the position reached, the
